@@ -838,6 +838,163 @@ def rule_exprflow(chk, prog, tier):
     r.exhaustive = False
 
 
+# ------------------------------------------------------------------ C01.k expression grammar
+
+GRAMMAR_OPS = [('TMUL', 10), ('TDIV', 10), ('TMOD', 10), ('TADD', 9), ('TSUB', 9), ('TSHL', 8), ('TSHR', 8), ('TLESS', 7), ('TGREATER', 7), ('TLEQ', 7), ('TGEQ', 7),
+          ('TEQL', 6), ('TNEQ', 6), ('TBAND', 5), ('TXOR', 4), ('TBOR', 3), ('TLAND', 2), ('TLOR', 1)]
+
+
+def ref_parse_expr(toks):
+    """reference parser for flat operand/operator sequences (C11 6.5.5-6.5.17); operands are ('X', name).
+    -> tree: name | (op, l, r) | ('?', c, t, f) | ('=', l, r) | (',', [..])   raises ValueError on a syntax/constraint error"""
+    prec = dict(GRAMMAR_OPS)
+    pos = [0]
+    def peek(): return toks[pos[0]][0] if pos[0] < len(toks) else 'END'
+    def eat():
+        t = toks[pos[0]]; pos[0] += 1; return t
+    def operand():
+        if peek() != 'X': raise ValueError('operand expected')
+        return eat()[1]
+    def binary(minp):
+        l = operand()
+        return climb(l, minp)
+    def climb(l, minp):
+        while peek() in prec and prec[peek()] >= minp:
+            op = eat()[0]
+            r = operand()
+            while peek() in prec and prec[peek()] > prec[op]:
+                r = climb(r, prec[peek()])
+            l = (op, l, r)
+        return l
+    def cond():
+        c = binary(1)
+        if peek() != 'TQUESTION': return c
+        eat(); t = comma()
+        if peek() != 'TCOLON': raise ValueError(': expected')
+        eat(); f = cond()
+        return ('?', c, t, f)
+    def assign():
+        l = cond()
+        if peek() == 'TASSIGN':
+            if not isinstance(l, str): raise ValueError('not an lvalue')
+            eat(); return ('=', l, assign())
+        return l
+    def comma():
+        items = [assign()]
+        while peek() == 'TCOMMA':
+            eat(); items.append(assign())
+        return items[0] if len(items) == 1 else (',', items)
+    e = comma()
+    if peek() != 'END': raise ValueError('trailing tokens')
+    return e
+
+
+def rule_exprgrammar(chk, prog, tier):
+    r = chk.rule('C01.k', 'binary operators, ?:, = and the comma operator group as the C grammar says: the relative precedence and associativity of every pair of binary operators, right-associative ?: and =, comma lowest',
+                 floor=350, oracle='C11 6.5.5-6.5.17')
+    fn = prog.require_func('expr', 'expr.c')
+    cases = []
+    X = lambda n: ('X', n)
+    for a, _ in GRAMMAR_OPS:
+        for b, _ in GRAMMAR_OPS:
+            cases.append([X('a'), (a, None), X('b'), (b, None), X('c')])
+    ops = [o for o, _ in GRAMMAR_OPS]
+    for o in ops[::2]:
+        cases.append([X('a'), (o, None), X('b'), ('TQUESTION', None), X('c'), ('TCOLON', None), X('d')])
+        cases.append([X('a'), ('TQUESTION', None), X('b'), ('TCOLON', None), X('c'), (o, None), X('d')])
+        cases.append([X('a'), ('TQUESTION', None), X('b'), (o, None), X('c'), ('TCOLON', None), X('d')])
+        cases.append([X('a'), ('TASSIGN', None), X('b'), (o, None), X('c')])
+        cases.append([X('a'), (o, None), X('b'), ('TCOMMA', None), X('c'), (o, None), X('d')])
+    Q, C_, A, M = ('TQUESTION', None), ('TCOLON', None), ('TASSIGN', None), ('TCOMMA', None)
+    cases += [[X('a'), Q, X('b'), C_, X('c'), Q, X('d'), C_, X('e')], [X('a'), Q, X('b'), Q, X('c'), C_, X('d'), C_, X('e')], [X('a'), A, X('b'), A, X('c')],
+              [X('a'), A, X('b'), Q, X('c'), C_, X('d')], [X('a'), M, X('b'), A, X('c')], [X('a'), A, X('b'), M, X('c')], [X('a'), Q, X('b'), M, X('c'), C_, X('d')],
+              [X('a'), Q, X('b'), A, X('c'), C_, X('d')], [X('a'), M, X('b'), M, X('c')], [X('a')]]
+    rnd = __import__('random').Random(5)
+    for _ in range(150 if tier == 'quick' else 1500):
+        n = rnd.randint(3, 6); seq = [X('x0')]
+        for k in range(1, n):
+            seq.append((rnd.choice(ops), None)); seq.append(X('x%d' % k))
+        cases.append(seq)
+    import par
+    def work(chunk):
+        out = []
+        for toks in chunk:
+            def runner(it):
+                w = World(prog, it=it, target='x86_64-sysv')
+                stream = toks + [('TSEMICOLON', None)]
+                tokobj = it.gobj('tok'); st = {'i': 0}
+                def load():
+                    k, v = stream[min(st['i'], len(stream) - 1)]
+                    tokobj.f[('kind',)] = ev(prog, 'TIDENT' if k == 'X' else k)
+                    tokobj.f[('lit',)] = None
+                    tokobj.f[('loc', 'file')] = None; tokobj.f[('loc', 'line')] = 1; tokobj.f[('loc', 'col')] = 1
+                def nxt(i2, a, e): st['i'] += 1; load(); return None
+                def consume(i2, a, e):
+                    if tokobj.f[('kind',)] == a[0]: nxt(i2, a, e); return 1
+                    return 0
+                def expect(i2, a, e):
+                    if tokobj.f[('kind',)] != a[0]: raise Terminal('error', 'expected token')
+                    nxt(i2, a, e); return None
+                def castexpr(i2, a, e):
+                    k, v = stream[min(st['i'], len(stream) - 1)]
+                    if k != 'X': raise Terminal('error', 'expected expression')
+                    nxt(i2, a, e)
+                    x = w.mkexpr('EXPRIDENT', w.t('int')); x.obj.f[('lvalue',)] = 1; x.obj.tree = v
+                    return x
+                opname = {ev(prog, o): o for o in ops}
+                def mkbinaryexpr(i2, a, e):
+                    x = w.mkexpr('EXPRBINARY', w.t('int'), None, op=a[1], u__binary__l=a[2], u__binary__r=a[3])
+                    x.obj.tree = (opname.get(a[1], a[1]), a[2].obj.tree, a[3].obj.tree)
+                    return x
+                it.models.update({'next': nxt, 'consume': consume, 'expect': expect, 'castexpr': castexpr, 'mkbinaryexpr': mkbinaryexpr, 'eval': lambda i2, a, e: a[0],
+                                  'exprconvert': lambda i2, a, e: a[0], 'xmalloc': lambda i2, a, e: Ptr(Obj('heap@%s' % e.get('line'), 'heap'), ()),
+                                  'error': lambda i2, a, e: (_ for _ in ()).throw(Terminal('error', cmodel.fmt_of(i2, a, 1))),
+                                  'fatal': lambda i2, a, e: (_ for _ in ()).throw(Terminal('fatal', cmodel.fmt_of(i2, a, 0)))})
+                load()
+                res = it.call(fn, [Ptr(Obj('scope', 'heap'), ())])
+                K = {ev(prog, k): k for k in ('EXPRCOND', 'EXPRASSIGN', 'EXPRCOMMA', 'EXPRBINARY', 'EXPRIDENT')}
+                def tree(x):
+                    t_ = getattr(x.obj, 'tree', None)
+                    if t_ is not None: return t_
+                    k = K.get(it.load(x.obj, ('kind',)))
+                    if k == 'EXPRCOND': return ('?', tree(it.load(x.obj, ('base',))), tree(it.load(x.obj, ('u', 'cond', 't'))), tree(it.load(x.obj, ('u', 'cond', 'f'))))
+                    if k == 'EXPRASSIGN': return ('=', tree(it.load(x.obj, ('u', 'assign', 'l'))), tree(it.load(x.obj, ('u', 'assign', 'r'))))
+                    if k == 'EXPRCOMMA':
+                        items = []; y = it.load(x.obj, ('base',))
+                        while y is not None:
+                            items.append(tree(y)); y = it.load(y.obj, ('next',))
+                        return (',', items)
+                    raise Unsupported('unexpected expression kind %s' % k)
+                if stream[min(st['i'], len(stream) - 1)][0] != 'TSEMICOLON': raise Terminal('error', 'expression not consumed to its end')
+                return tree(res)
+            runs = explore(prog, runner, {}, max_runs=4, on_unsupported='keep')
+            run = runs[0]
+            out.append((toks, 'multi' if len(runs) != 1 else run.outcome, run.value if run.outcome == 'return' else str(run.detail)))
+        return out
+    SP = {'TMUL': '*', 'TDIV': '/', 'TMOD': '%', 'TADD': '+', 'TSUB': '-', 'TSHL': '<<', 'TSHR': '>>', 'TLESS': '<', 'TGREATER': '>', 'TLEQ': '<=', 'TGEQ': '>=', 'TEQL': '==', 'TNEQ': '!=',
+          'TBAND': '&', 'TXOR': '^', 'TBOR': '|', 'TLAND': '&&', 'TLOR': '||', 'TQUESTION': '?', 'TCOLON': ':', 'TASSIGN': '=', 'TCOMMA': ','}
+    chunks = [cases[k::32] for k in range(32)]
+    seen = set()
+    for res in par.pmap(work, chunks):
+        for toks, outcome, val in res:
+            text_ = ' '.join(v if k == 'X' else SP[k] for k, v in toks)
+            if text_ in seen: continue
+            seen.add(text_)
+            if outcome in ('unsupported', 'multi'):
+                raise AnalysisBroken('expr %s: %s' % (text_, val))
+            try:
+                want = ref_parse_expr(toks)
+            except ValueError as x:
+                r.instance(outcome == 'terminal:error', 'exprgrammar:' + text_, 'expr.c', 'must be rejected (%s); cproc parses it as %s' % (x, val)); continue
+            def norm(t):
+                if isinstance(t, str): return t
+                if t[0] == ',': return (',', tuple(norm(y) for y in t[1]))
+                return (t[0],) + tuple(norm(y) for y in t[1:])
+            ok = outcome == 'return' and norm(val) == norm(want)
+            r.instance(ok, 'exprgrammar:' + text_, 'expr.c:binaryexpr', 'C groups it as %s; cproc builds %s' % (want, val if outcome == 'return' else outcome + ' ' + str(val)))
+    r.exhaustive = False
+
+
 def run(chk, tier):
     prog = facts.programs()['cproc-qbe']
     chk.guard('C01.a', lambda: rule_binop(chk, prog, tier))
@@ -850,5 +1007,6 @@ def run(chk, tier):
     chk.guard('C01.h', lambda: rule_ldouble(chk, prog, tier))
     chk.guard('C01.i', lambda: rule_designators(chk, prog, tier))
     chk.guard('C01.j', lambda: rule_exprflow(chk, prog, tier))
+    chk.guard('C01.k', lambda: rule_exprgrammar(chk, prog, tier))
     from props import c01f
     chk.guard('C01.f', lambda: c01f.rule_statements(chk, prog, tier))
